@@ -5,53 +5,9 @@ import os
 
 ROOT = os.path.dirname(os.path.dirname(os.path.abspath(__file__)))
 
-# property id -> (technique, level text, level note, design ref)
-CLAIMED = {
-    "C12": (
-        "Coq proof of list laws over a hand-written Gallina model of execute_envPrepend/envSet + differential run "
-        "of the extracted model against table.Action.execute",
-        "Theorems (coq/Props/C12.v, closed under the global context) prove, for every prior value, value and "
-        "non-metacharacter delimiter: prepend-first, append-last (fresh), once-each, others-kept-in-order, MANPATH "
-        "flags, unsetup removes exactly the element, setup+unsetup restores, envSet exactness with per-reference "
-        "expansion, guarded-undefined no-op, and the lift to action sequences. The model is tied to the code by "
-        "running the extracted model and the real Action.execute on the same generated actions every run; the "
-        "property's own oracle is evaluated on the implementation's outputs.",
-        "Trusted: Coq kernel, extraction (ExtrOcamlBasic), OCaml driver, the python harness; modelled not "
-        "verified: python re/str/os.environ semantics; delimiters restricted to single non-metacharacters; values "
-        "without backslash/newline. Open finding D8 (append of present value not moved last).",
-        "DESIGN.md section 5, C12"),
-    "C15": (
-        "python-AST translator regenerating the guard structure of the mutating Eups methods into Coq on every run + "
-        "verified reachability analyser (safe_sound) + dynamic dry-run hashing and write-site spy",
-        "Generated/Guards.v is re-derived from /repo's Eups.py on every run (fail-closed translator); Props/C15.v proves, "
-        "with a soundness theorem for the analyser over a non-deterministic big-step semantics (all opaque conditions, "
-        "iteration counts, exceptions, callee behaviours), that no call classified as writing (database record, cache, "
-        "file system, unknown callee) is reachable from declare/undeclare/unassignTag/remove when noaction is true. "
-        "Dynamically every generated operation is run with noaction=True on the real code with the stack hashed "
-        "before/after, and run with noaction=False under a spy that checks every observed change of the stack happens "
-        "below a call site the translator classified as writing.",
-        "Trusted: Coq kernel; the translator and its classification tables (printed in the evidence; pure-callee "
-        "table cross-checked by the spy, not proved); Model/Guards.v exec as an over-approximation of python control "
-        "flow. Not modelled: eups distrib / admin commands; writes to EUPS_USERDATA and the system temp dir are "
-        "outside the property (listed as not_stack_records).",
-        "DESIGN.md section 5, C15"),
-    "C08": (
-        "Coq proof that every crash point of the write-temporary-then-rename protocol leaves the records as after a "
-        "whole number of record-level effects + crash injection at every file-system effect of the real operations",
-        "Props/C08.v proves for any fs, any list of record-level effects and any number k of completed system calls of "
-        "the repaired protocol: the main (non temporary) records equal those after some prefix of the effects; hence "
-        "each record is in its old form or a complete form the operation wrote (never truncated), untargeted records "
-        "are untouched, and the in-place protocol of the pinned tree is refuted by witness. The tie: the last operation "
-        "of generated histories is run on the real code and killed (os._exit) before every one of its file-system "
-        "effects under ups_db; the surviving database is compared with the model's crash_state for the effect list "
-        "observed in the completed run, and the property's own oracle (fresh reader succeeds, every record old or new, "
-        "bystanders unchanged) is evaluated on it.",
-        "Trusted: Coq kernel, extraction, harness; POSIX atomicity of rename/unlink/mkdir/rmdir and 'a crash is a stop "
-        "between two system calls' are assumptions (no fsync/power-loss semantics); the effect list fed to the model is "
-        "reconstructed from the real trace (the Db-level effect model of C06 is not yet composed with it). Open "
-        "finding D20 (tag move = unassign then assign).",
-        "DESIGN.md section 5, C08"),
-}
+# property id -> {technique, text, note, ref}: tools/manifest_entries.json
+CLAIMED = {k: (v["technique"], v["text"], v["note"], v["ref"])
+           for k, v in json.load(open(os.path.join(ROOT, "tools", "manifest_entries.json"))).items()}
 
 NOT_YET = {}
 
